@@ -244,8 +244,9 @@ def fromSnyk (mkVerOf : String → Str → Except TErr Str) (scheme : String) (i
 /-! ### GitLab -/
 
 /-- the token loop of `from_gitlab_native`; the state `comparator` is a Python `str`
-(`some _`) or `None` (`none`, after a dict entry whose value is `None`: the next
-`"".join([comparator, item])` is a `TypeError`). -/
+(`some _`) or `None` (`none`: `"".join([None, item])` would be a `TypeError`; since the check
+`if comparator is None: raise ValueError` after the dict lookup, the loop never enters that
+state by itself). -/
 def gitlabLoop (mkVer : Str → Except TErr Str) (dict : Dict) :
     Option Str → List Str → Except TErr (List TCon)
   | _, [] => .ok []
@@ -256,7 +257,8 @@ def gitlabLoop (mkVer : Str → Except TErr Str) (dict : Dict) :
       | none => .error .TypeError
       | some c =>
         match dict.lookup (c ++ item) with
-        | some v => gitlabLoop mkVer dict v rest
+        | some none => .error .ValueError
+        | some (some v) => gitlabLoop mkVer dict (some v) rest
         | none =>
           let con : Except TErr TCon :=
             if !c.isEmpty then buildCon mkVer (some c) item
@@ -369,6 +371,8 @@ structure NginxOps where
   isStable : R → Bool
   /-- `str(version.next_minor())` (`next_minor` builds a `SemverVersion`) -/
   nextMinor : R → Except TErr Str
+  /-- `start_version == end_version` -/
+  eq : R → R → Bool
 
 def semverErr : Semver.PErr → TErr
   | .invalid => .InvalidVersion
@@ -385,6 +389,7 @@ def nginxSemver : NginxOps where
   nextMinor r := match Semver.verNextMinor r with
     | .ok r' => .ok (Semver.str r')
     | .error e => .error (semverErr e)
+  eq := Semver.verOps.eq
 
 /-- one comma-separated clause of an nginx range -/
 def nginxClause (o : NginxOps) (clause : Str) : Except TErr (List TCon) :=
@@ -396,10 +401,16 @@ def nginxClause (o : NginxOps) (clause : Str) : Except TErr (List TCon) :=
       match o.make p.2 with
       | .error e => .error e
       | .ok e =>
-        match mkCon (some ['>', '=']) (o.str s), mkCon (some ['<', '=']) (o.str e) with
-        | .ok a, .ok b => .ok [a, b]
-        | .error x, _ => .error x
-        | _, .error x => .error x
+        if o.eq s e then
+          -- a range of a single version
+          match mkCon (some ['=']) (o.str s) with
+          | .ok a => .ok [a]
+          | .error x => .error x
+        else
+          match mkCon (some ['>', '=']) (o.str s), mkCon (some ['<', '=']) (o.str e) with
+          | .ok a, .ok b => .ok [a, b]
+          | .error x, _ => .error x
+          | _, .error x => .error x
   else if clause.contains '+' then
     let vs := rstripSet ['+'] clause
     match o.make vs with
